@@ -26,15 +26,15 @@ type Record struct {
 }
 
 type PathResult struct {
-	Decisions    []int          `json:"decisions"`
-	Status       string         `json:"status"` // ok | infeasible | inconclusive | unsupported | panic | stopped
-	Why          string         `json:"why,omitempty"`
-	Asserts      []AssertResult `json:"asserts,omitempty"`
-	Records      []Record       `json:"records,omitempty"`
-	Notes        []string       `json:"notes,omitempty"`
-	Steps        int            `json:"steps"`
-	Inconclusive bool           `json:"inconclusive,omitempty"`
-	Choices      map[string]int `json:"choices,omitempty"`
+	Decisions    []int               `json:"decisions"`
+	Status       string              `json:"status"` // ok | infeasible | inconclusive | unsupported | panic | stopped
+	Why          string              `json:"why,omitempty"`
+	Asserts      []AssertResult      `json:"asserts,omitempty"`
+	Records      []Record            `json:"records,omitempty"`
+	Notes        []string            `json:"notes,omitempty"`
+	Steps        int                 `json:"steps"`
+	Inconclusive bool                `json:"inconclusive,omitempty"`
+	Choices      map[string]int      `json:"choices,omitempty"`
 	PanicModel   map[string]ModelVal `json:"panic_model,omitempty"`
 	Witness      map[string]ModelVal `json:"witness,omitempty"`
 }
@@ -119,7 +119,7 @@ func runPath(P *Program, sol *Solver, fn *ssa.Function, params map[string]string
 	in := &Interp{P: P, ts: ts, sol: sol, glob: map[*ssa.Global]Ptr{}, prefix: prefix,
 		maxSteps: opts.MaxSteps, unwind: opts.Unwind, permute: opts.Permute, params: params,
 		funcs: funcs, choices: map[string]int{}, hooks: map[string]interface{}{}, injUFs: map[string]bool{},
-		trace: opts.Trace, foreignErr: map[*ssa.Global]bool{}}
+		trace: opts.Trace, foreignErr: map[*ssa.Global]bool{}, blobDistinct: params["blob_distinct"] != ""}
 	pr = &PathResult{Status: "ok"}
 	in.res = pr
 	defer func() {
@@ -185,6 +185,24 @@ func runPath(P *Program, sol *Solver, fn *ssa.Function, params map[string]string
 
 // axioms returns side conditions added to every query (injectivity of flagged UFs, blob equalities).
 func (in *Interp) axioms() []*Term {
+	in.flushAxioms()
+	return nil
+}
+
+// flushAxioms asserts (once, at base level) the side conditions that are valid on the whole path.
+func (in *Interp) flushAxioms() {
+	for _, a := range in.computeAxioms() {
+		if in.axDone == nil {
+			in.axDone = map[int]bool{}
+		}
+		if !in.axDone[a.id] {
+			in.axDone[a.id] = true
+			in.sol.Assert(a)
+		}
+	}
+}
+
+func (in *Interp) computeAxioms() []*Term {
 	var ax []*Term
 	if len(in.injUFs) > 0 {
 		byName := map[string][]*Term{}
@@ -207,14 +225,20 @@ func (in *Interp) axioms() []*Term {
 			}
 		}
 	}
-	// JSON blobs: opaque string symbols are equal iff the trees are structurally equal
-	for i := 0; i < len(in.blobs); i++ {
+	// JSON blobs: opaque string symbols are equal iff the trees are structurally equal. Only on request
+	// (param blob_axioms): without these axioms the symbols of semantically equal but syntactically different trees are
+	// unrelated, which over-approximates (sound for proving; spurious counterexamples are filtered by native replay).
+	for i := 0; in.params["blob_axioms"] != "" && i < len(in.blobs); i++ {
 		for j := i + 1; j < len(in.blobs); j++ {
 			a, b := in.blobs[i], in.blobs[j]
 			if a.Str == b.Str {
 				continue
 			}
-			ax = append(ax, in.ts.Eq(in.ts.Eq(a.Str, b.Str), in.jsonEq(a.Node, b.Node)))
+			je := in.jsonEq(a.Node, b.Node)
+			if je.IsConst() && !je.BoolVal() && !in.blobDistinct {
+				continue // structurally different trees: distinctness only asserted on request (vf.Param blob_distinct)
+			}
+			ax = append(ax, in.ts.Eq(in.ts.Eq(a.Str, b.Str), je))
 		}
 	}
 	return ax
